@@ -21,6 +21,8 @@ const GLOBAL: [&str; 7] = [
 pub struct C08 {
     fams: Fams,
     names: Vec<String>,
+    /// (name, definition expression, long?) of every prefix line of the bundled files, in file order
+    prefix_defs: Vec<(String, Expr, bool)>,
     ctxs: [Lazy<Context>; 2],
 }
 
@@ -48,7 +50,16 @@ impl C08 {
         let mut fams = Fams::default();
         fams.add("whole-database checks", vec![2, GLOBAL.len() as u64]);
         fams.add("per-definition fixed point", vec![2, names.len() as u64]);
-        C08 { fams, names, ctxs: [Lazy::new(), Lazy::new()] }
+        let mut prefix_defs = vec![];
+        for text in [rink_core::DEFAULT_FILE.unwrap(), rink_core::CURRENCY_FILE.unwrap()] {
+            for e in rink_core::loader::gnu_units::parse_str(text).defs {
+                if let rink_core::ast::Def::Prefix { ref expr, is_long } = *e.def {
+                    prefix_defs.push((e.name.clone(), expr.0.clone(), is_long));
+                }
+            }
+        }
+        fams.add("per-prefix fixed point", vec![2, prefix_defs.len() as u64]);
+        C08 { fams, names, prefix_defs, ctxs: [Lazy::new(), Lazy::new()] }
     }
 }
 
@@ -65,7 +76,7 @@ impl Space for C08 {
         Meta {
             id: "C08",
             level: "exploration",
-            rule: "every name of the loaded registry (all units and all stored definitions), in both configurations (bundled definitions; bundled + currency.units + currency snapshot): the stored value equals Context::eval of the stored definition, its dimensionality uses declared base units only, alias chains end at a real definition; plus seven whole-database checks (silent error-free load with fd 1 captured, identical Debug dumps of two loads, quantity injectivity, doc/category ownership, no temporaries, prefix table). Non-trivial = the name exists in that configuration; distinct by (config, name/check)".into(),
+            rule: "every name of the loaded registry (all units and all stored definitions), in both configurations (bundled definitions; bundled + currency.units + currency snapshot): the stored value equals Context::eval of the stored definition, its dimensionality uses declared base units only, alias chains end at a real definition; plus every prefix line of the bundled files (text re-read with rink's parser, evaluated by the runtime evaluator in the loaded context, compared with the prefix table and, for long prefixes, with the unit of the same name); plus seven whole-database checks (silent error-free load with fd 1 captured, identical Debug dumps of two loads, quantity injectivity, doc/category ownership, no temporaries, prefix table). Non-trivial = the name exists in that configuration; distinct by (config, name/check)".into(),
             assumptions: vec!["`Debug` output of Registry shows every field (derive(Debug))".into()],
             exhaustive: true,
             extra: json!({"families": self.fams.summary(), "whole_database_checks": GLOBAL}),
@@ -78,6 +89,8 @@ impl Space for C08 {
         let (f, d) = self.fams.locate(idx);
         if f == 0 {
             format!("{}: {}", cfg_name(d[0]), GLOBAL[d[1] as usize])
+        } else if f == 2 {
+            format!("{}: prefix `{}-`", cfg_name(d[0]), self.prefix_defs[d[1] as usize].0)
         } else {
             format!("{}: definition of `{}`", cfg_name(d[0]), self.names[d[1] as usize])
         }
@@ -167,6 +180,52 @@ impl Space for C08 {
                             out = out.viol("duplicate prefix", p.clone());
                         }
                     }
+                }
+            }
+            return out;
+        }
+        if f == 2 {
+            // The registry keeps no text for prefixes, so the text is re-read from the bundled file
+            // (rink's own parser) and evaluated by the runtime evaluator in the loaded context; the
+            // loader computed the stored value with its own separate prefix evaluator.
+            let (name, expr, is_long) = &self.prefix_defs[d[1] as usize];
+            let ctx = self.ctxs[c as usize].get(|| load(c).0);
+            let r = &ctx.registry;
+            let mut out = CaseOut::ok("prefix fixed point").key(key);
+            if self.prefix_defs.iter().filter(|p| &p.0 == name).count() > 1 {
+                out.outcome = "prefix defined more than once (unjudged)".into();
+                return out;
+            }
+            let stored = match r.prefixes.iter().find(|p| &p.0 == name) {
+                Some(p) => p.1.clone(),
+                None => return out.viol("prefix of the bundled file is not in the prefix table", name.clone()),
+            };
+            match ctx.eval(expr) {
+                Ok(Value::Number(n)) => {
+                    if !n.unit.is_empty() {
+                        out = out.viol("prefix definition is not dimensionless", format!("{}- {}", name, expr));
+                    } else if n.value != stored {
+                        out = out.viol(
+                            "stored prefix value differs from its definition",
+                            format!("{}- {} evaluates to {:?} but {:?} is stored", name, expr, n.value, stored),
+                        );
+                    }
+                    if *is_long {
+                        match r.units.get(name) {
+                            Some(u) if u.unit.is_empty() && u.value == n.value => {}
+                            other => {
+                                out = out.viol(
+                                    "long prefix as a unit differs from its definition",
+                                    format!("{}- {} evaluates to {:?} but the unit `{}` is {:?}", name, expr, n.value, name, other),
+                                )
+                            }
+                        }
+                    }
+                }
+                Ok(o) => out = out.viol("prefix definition is not a number", format!("{}- {} -> {:?}", name, expr, o)),
+                Err(e) => {
+                    // a short prefix used by name is not a unit: the runtime evaluator cannot see it
+                    out.outcome = format!("prefix definition not evaluable at run time ({})", err_kind(&e));
                 }
             }
             return out;
